@@ -315,6 +315,10 @@ class P:
             e = self.expr()
             self.expect(";")
             return [("return", e)]
+        if tk in (("id", "continue"), ("id", "break")):
+            self.next()
+            self.expect(";")
+            return [(tk[1],)]
         if tk == ("id", "if"):
             self.next()
             self.expect("(")
@@ -813,6 +817,8 @@ class Emitter:
             bodytxt = self.stmts(f2, body, names, defined | set(assigned) | {var}, ind + 2, lambda nm: st)
             loop = pad + "let %s := loopFin %d %s (fun %s %s =>\n%s)\n" % (st, n, st, names.get(var, var), st, bodytxt)
             return pre + loop + self.stmts(f, rest, names, defined | set(assigned), ind, tail)
+        if k in ("continue", "break"):
+            raise Unsupported("%s: `%s` is outside the subset" % (f["name"], k))
         raise Unsupported("statement %r" % (k,))
 
     def flat(self, ss):
@@ -979,6 +985,95 @@ def loopFin {σ : Type} (n : Nat) (init : σ) (body : Fin n → σ → σ) : σ 
 '''
 
 
+# ---------------------------------------------------------------------------------- the DOS driver loop of c/phonopy.c
+def translate_dos_loop(path):
+    """The frequency-point loop of `phpy_tetrahedron_method_dos`: its *control structure* is translated.
+
+    The loop body must be: zero or more guards `if (cmp) { continue; | break; }` whose comparisons involve only
+    `freq_points[j]` and the scalars `fmin`, `fmax`; then `iw = thm_get_integration_weight(freq_points[j], tetrahedra,
+    'I') * weights[i];` and the accumulation loop `dos[...] += iw * coef[...]`. Everything else is Unsupported.
+    Emitted: `dos_freq_loop fmin fmax freq_points visit : List (Option β)` — `some (visit ω)` where the body is
+    executed for the frequency point, `none` where it is skipped (after a `break`: all remaining points)."""
+    raw = open(path).read()
+    src = re.sub(r"/\*.*?\*/", lambda m: "\n" * m.group(0).count("\n"), raw, flags=re.S)
+    m = re.search(r"void\s+phpy_tetrahedron_method_dos\s*\(", src)
+    if not m:
+        raise Unsupported("phpy_tetrahedron_method_dos not found in %s" % path)
+    start = src.index("{", m.end())
+    depth, k = 0, start
+    while True:
+        if src[k] == "{":
+            depth += 1
+        elif src[k] == "}":
+            depth -= 1
+            if depth == 0:
+                break
+        k += 1
+    body = src[start:k + 1]
+    heads = [mm for mm in re.finditer(r"for\s*\(\s*j\s*=\s*0\s*;\s*j\s*<\s*num_freq_points\s*;\s*j\+\+\s*\)\s*\{", body)]
+    if len(heads) != 1:
+        raise Unsupported("phpy_tetrahedron_method_dos: expected exactly one loop over the frequency points, found %d" % len(heads))
+    b0 = heads[0].end() - 1
+    depth, k = 0, b0
+    while True:
+        if body[k] == "{":
+            depth += 1
+        elif body[k] == "}":
+            depth -= 1
+            if depth == 0:
+                break
+        k += 1
+    loop_src = "\n".join(l for l in body[b0:k + 1].split("\n") if not l.strip().startswith("#"))
+    mhead = re.search(r"for\s*\(\s*m\s*=", loop_src)
+    if not mhead:
+        raise Unsupported("phpy_tetrahedron_method_dos: accumulation loop over the coefficients not found")
+    stmts = P(tokenize(loop_src[:mhead.start()] + "}")).block()
+
+    def cmp_lean(e):
+        if e[0] == "bin" and e[1] in ("<", ">", "<=", ">="):
+            a, b = atom(e[2]), atom(e[3])
+            return {"<": "(%s < %s)" % (a, b), ">": "(%s < %s)" % (b, a), "<=": "(¬ (%s < %s))" % (b, a), ">=": "(¬ (%s < %s))" % (a, b)}[e[1]]
+        if e[0] == "bin" and e[1] in ("&&", "||"):
+            return "(%s %s %s)" % (cmp_lean(e[2]), {"&&": "∧", "||": "∨"}[e[1]], cmp_lean(e[3]))
+        raise Unsupported("phpy_tetrahedron_method_dos: guard condition %r" % (e,))
+
+    def atom(e):
+        if e == ("index", "freq_points", [("var", "j")]):
+            return "w"
+        if e in (("var", "fmin"), ("var", "fmax")):
+            return e[1]
+        raise Unsupported("phpy_tetrahedron_method_dos: guard operand %r" % (e,))
+
+    guards = []
+    rest = list(stmts)
+    while rest and rest[0][0] == "if":
+        _, c, a, b = rest.pop(0)
+        if b or len(a) != 1 or a[0][0] not in ("continue", "break"):
+            raise Unsupported("phpy_tetrahedron_method_dos: conditional in the frequency loop is not `if (..) continue;|break;`")
+        guards.append((cmp_lean(c), a[0][0]))
+    want_iw = ("assign", "iw", [], ("bin", "*", ("call", "thm_get_integration_weight",
+               [("index", "freq_points", [("var", "j")]), ("var", "tetrahedra"), ("char", "'I'")]), ("index", "weights", [("var", "i")])))
+    if not rest or rest[0] != want_iw:
+        raise Unsupported("phpy_tetrahedron_method_dos: expected `iw = thm_get_integration_weight(freq_points[j], tetrahedra, 'I') * weights[i];`")
+    rest.pop(0)
+    if rest:
+        raise Unsupported("phpy_tetrahedron_method_dos: unexpected statements between the integration weight and the accumulation loop")
+    # accumulation loop: for (m = 0; m < num_coef; m++) dos[...] += iw * coef[...];  (bound is a variable: matched textually)
+    tail = loop_src[loop_src.index("weights[i];") + len("weights[i];"):]
+    if not re.fullmatch(r"\s*for\s*\(\s*m\s*=\s*0\s*;\s*m\s*<\s*num_coef\s*;\s*m\+\+\s*\)\s*\{\s*dos\[[^;]*\]\s*\+=\s*iw\s*\*\s*coef\[[^;]*\]\s*;\s*\}\s*\}\s*", tail):
+        raise Unsupported("phpy_tetrahedron_method_dos: unexpected statements after the integration weight in the frequency loop")
+    out = "/-- control structure of the frequency-point loop of `c/phonopy.c: phpy_tetrahedron_method_dos`\n"
+    out += "(source sha256 of phonopy.c: %s): `some (visit ω)` where the loop body runs, `none` where it is skipped. -/\n" % __import__("hashlib").sha256(raw.encode()).hexdigest()
+    out += "def dos_freq_loop {β : Type} (fmin fmax : α) (visit : α → β) : List α → List (Option β)\n  | [] => []\n  | w :: rest =>\n"
+    ind = "    "
+    for cond, act in guards:
+        out += ind + "if %s then %s\n" % (cond, "none :: dos_freq_loop fmin fmax visit rest" if act == "continue" else "none :: rest.map (fun _ => none)")
+        out += ind + "else\n"
+        ind += "  "
+    out += ind + "some (visit w) :: dos_freq_loop fmin fmax visit rest\n\n"
+    return out
+
+
 def translate(src_path):
     import hashlib
 
@@ -1000,6 +1095,7 @@ def translate(src_path):
         out += table_lean(tname, *tables[tname]) + "\n"
     for n in call_graph_order(sub, WANTED):
         out += em.function(sub[n]) + "\n"
+    out += translate_dos_loop(os.path.join(os.path.dirname(src_path), "phonopy.c"))
     out += "end PhononModel.TetraC\n"
     return out
 
